@@ -130,9 +130,9 @@ type rtState struct {
 	writes   int
 	in       []bvVal
 	pos      int
-	over     bool   // a loop went beyond the unrolling
-	starved  bool   // the decoder asked for a byte beyond the input
-	panicked string // index out of range etc.
+	over     bool            // a loop went beyond the unrolling
+	starved  bool            // the decoder asked for a byte beyond the input
+	panicked string          // index out of range etc.
 	side     []rtSide        // conditions that must hold on this path (bounds of symbolic slices ...)
 	filled   map[string]bool // symbolic slices (by length term) filled from the argument's bytes
 }
